@@ -12,6 +12,7 @@ open Neutrino.Disp
 #print axioms C12_rank_scores
 #print axioms C12_score_moves
 #print axioms C12_hard_timeout_honoured
+#print axioms C12_connect_registers
 open Neutrino.Wrk
 #print axioms C12_worker_source_facts
 #print axioms C12_worker_reports
